@@ -44,25 +44,6 @@ pub proof fn lemma_slot_in_range(v: Scopes, name: Seq<char>)
         lemma_slot_in_range(v.drop_last(), name);
     }
 }
-pub proof fn lemma_last_pos_range(s: Seq<Seq<char>>, name: Seq<char>)
-    ensures last_pos(s, name) matches Some(j) ==> 0 <= j < s.len() && s[j] == name && forall|k: int| j < k < s.len() ==> s[k] != name,
-            last_pos(s, name) is None ==> forall|k: int| 0 <= k < s.len() ==> s[k] != name,
-    decreases s.len()
-{
-    if s.len() > 0 {
-        let t = s.drop_last();
-        lemma_last_pos_range(t, name);
-        assert forall|k: int| 0 <= k < t.len() implies t[k] == s[k] by {}
-        if s.last() != name {
-            if last_pos(t, name) is Some {
-                let j = last_pos(t, name)->Some_0;
-                assert forall|k: int| j < k < s.len() implies s[k] != name by { if k < t.len() { assert(t[k] != name); } }
-            } else {
-                assert forall|k: int| 0 <= k < s.len() implies s[k] != name by { if k < t.len() { assert(t[k] != name); } }
-            }
-        }
-    }
-}
 /// O09.L1  an inner block may declare the same name without disturbing the outer variable: inside a block a name
 /// means the block's own (last) declaration if it has one - a FRESH slot beyond every outer slot - and otherwise
 /// exactly what it meant outside
@@ -73,17 +54,6 @@ pub proof fn lemma_inner_scope(v: Scopes, inner: Seq<Seq<char>>, name: Seq<char>
     assert(v.push(inner).drop_last() =~= v);
     assert(v.push(inner).last() == inner);
     lemma_last_pos_range(inner, name);
-}
-/// O09.L2  a later declaration of the same name in the same block takes over: right after declaring `name` it
-/// means the NEW slot (the number of names declared before it in the context)
-pub proof fn lemma_declare_takes_over(v: Scopes, name: Seq<char>)
-    requires v.len() >= 1
-    ensures slot_of(declare(v, name), name) == Some(flat_len(v) as int), flat_len(declare(v, name)) == flat_len(v) + 1
-{
-    let w = declare(v, name);
-    assert(w.drop_last() =~= v.drop_last());
-    assert(w.last() == v.last().push(name));
-    assert(v.last().push(name).last() == name);
 }
 /// O09.L3  declaring a name does not change what any OTHER name means
 pub proof fn lemma_declare_frames_others(v: Scopes, name: Seq<char>, other: Seq<char>)
